@@ -306,6 +306,42 @@ theorem c03_redeclaration_decides (r : Registry) (n : String) (t : Tool) (req ca
     (r.redeclare n req caps).lookup n = some { t with req := req, caps := caps } :=
   lookup_redeclare r n t req caps hl
 
+/-- **A tool that ran before is refused once its declaration leaves the ceiling** - however the declaration changed:
+    attribute re-assigned, the declared set mutated in place, or re-declared through another engine that holds the
+    same object (all of them are the operation `redeclare` in THIS engine's history): no memory of an earlier
+    clearance survives. -/
+theorem c03_redeclared_outside_ceiling_is_refused (s : St) (n : String) (t : Tool) (req caps : Option (List Cap))
+    (argsOk : Bool) (ops : List RegOp) (hl : s.reg.lookup n = some t)
+    (hp : permitted s.allowed { t with req := req, caps := caps } = false) :
+    (run guards s [.redeclare n req caps, .call n ops]).events = s.events ∧
+    (run guards s [.redeclare n req caps, .metabolize .oxidative (.name n) argsOk ops]).events = s.events := by
+  have hl' : ({ s with reg := s.reg.redeclare n req caps } : St).reg.lookup n = some { t with req := req, caps := caps } :=
+    c03_redeclaration_decides s.reg n t req caps hl
+  constructor
+  · exact (c03_refusal_is_failure_without_effect_call { s with reg := s.reg.redeclare n req caps } n _ ops hl' hp).2.1
+  · exact (c03_refusal_is_failure_without_effect_metabolize { s with reg := s.reg.redeclare n req caps } n _ argsOk ops
+      hl' hp).2.1
+
+/-- ... and once the ceiling is narrowed below its declaration (assignment to `allowed_capabilities`, or the set object
+    mutated in place): judged by the ceiling in force, not by an earlier verdict. -/
+theorem c03_narrowed_ceiling_refuses (s : St) (n : String) (t : Tool) (al : Option (List Cap))
+    (argsOk : Bool) (ops : List RegOp) (hl : s.reg.lookup n = some t) (hp : permitted al t = false) :
+    (run guards s [.setCeiling al, .call n ops]).events = s.events ∧
+    (run guards s [.setCeiling al, .metabolize .oxidative (.name n) argsOk ops]).events = s.events := by
+  constructor
+  · exact (c03_refusal_is_failure_without_effect_call { s with allowed := al } n t ops hl hp).2.1
+  · exact (c03_refusal_is_failure_without_effect_metabolize { s with allowed := al } n t argsOk ops hl hp).2.1
+
+/-- hypotheses satisfiable, and the earlier use did run: used, re-declared outside the ceiling, refused; ceiling widened,
+    runs; ceiling narrowed, refused -/
+example :
+    let s := run ⟨true, true⟩ (init (some [0])) [.register "w" ⟨1, some [0], none, false⟩, .call "w" []]
+    s.events.length = 1 ∧ s.reg.lookup "w" = some ⟨1, some [0], none, false⟩ ∧
+    permitted s.allowed { (⟨1, some [0], none, false⟩ : Tool) with req := some [0, 2], caps := none } = false ∧
+    (run ⟨true, true⟩ s [.redeclare "w" (some [0, 2]) none, .call "w" [], .setCeiling (some [0, 2]), .call "w" [],
+      .setCeiling (some [2]), .call "w" []]).events.map (·.ceiling) = [some [0], some [0, 2]] := by
+  decide
+
 /-- A tool that was removed from the registry (or never registered) is never run: every executed tool was the object
     registered under the requested name when the request arrived. -/
 theorem c03_only_currently_registered (s : St) (n : String) (ops : List RegOp)
